@@ -29,7 +29,7 @@ def run(chk):
             chk.violation('harness', 'unparsable record %d' % r.id, None)
             continue
         if 'panic' in impl:
-            chk.extra_cov['skipped_panics'] = chk.extra_cov.get('skipped_panics', 0) + 1
+            chk.panic_record(r, impl['panic'], rp)
             continue
         inp = parse_input(r.inp)
         tol = Tol(inp)
